@@ -213,8 +213,6 @@ theorem html_comment_closed_counterexample : ¬ html_comment_closed_full := by
   rw [this] at hb
   cases hb
 
-deriving instance DecidableEq for Except
-
 /-- non-vacuity: a conditional comment with markup and `--` inside, kept with its inside minified -/
 example :
     let data := "<!--[if lt IE 9]><p title=\"a -- b\"> x </p><![endif]-->".toList
